@@ -77,6 +77,10 @@ def gen_cases(rng, tier):
         for gen_source in (True, False):
             cases.append({'kind': 'history', 'history': h, 'reuse': False, 'two': True, 'ups': [], 'loader': False, 'names': ['one', 'two'],
                           'gen_source': gen_source, 'rows': [{'a': j, 'v': enc(j * 2)} for j in range(3)]})
+    # the known sub-second loss inside a history whose steps before the checkpoint add fields (recognised as the known finding)
+    cases.append({'kind': 'history', 'history': ['run', 'run'], 'reuse': True, 'two': True, 'ups': ['validate', 'add_field'], 'loader': False,
+                  'names': ['one', 'two'], 'rows': [{'a': 0, 'v': enc(datetime.time(23, 28, 5))},
+                                                      {'a': 1, 'v': enc(datetime.datetime(999, 4, 14, 7, 46, 53, 999999))}]})
     # the same zone name with different offsets (a zone whose offset changed over the years) within one value
     msk = [datetime.datetime(2012, 6, 1, 12, 0, 0, tzinfo=datetime.timezone(datetime.timedelta(hours=4), 'MSK')),
            datetime.datetime(2020, 6, 1, 12, 0, 0, tzinfo=datetime.timezone(datetime.timedelta(hours=3), 'MSK')),
@@ -279,7 +283,8 @@ def finding(case, out, failure):
         rows = rows_dec(case['rows'])
         if any(not type_exact_eq(r, strip_subsec(r)) for r in rows) and 'different result' in (failure or ''):
             runs = out['runs']
-            want = [rows_enc(strip_subsec(rows))] if True else None
+            # what the first run returned (steps before the checkpoint included), with the sub-second parts dropped
+            want = [rows_enc(strip_subsec(rows_dec(x))) for x in runs[0]['rows']] if 'error' not in runs[0] else None
             if all('error' not in r and (r['rows'] == runs[0]['rows'] or r['rows'] == want) for r in runs):
                 return 'C07.subsecond_and_time_zone_lost'
     return None
